@@ -31,6 +31,17 @@ Moves of one scheduling step (this order; choice 0 is always first):
                        re-created on a new session with empty memory and
                        re-issues all live requests in directory order `perm`
                        (every permutation: glob order is arbitrary)
+       ('fault', N, kind)  the fault lands ON N's call in flight:
+                       'expired'       the session expires; the call raises
+                                       SessionExpiredError; N's ephemerals
+                                       vanish; the same process (service
+                                       memory, retry queue, re-armed watches)
+                                       carries on under a new session id
+                       'loss'          ConnectionLoss, call not applied
+                       'loss-applied'  a create/set/delete is applied, then
+                                       ConnectionLoss is raised
+                       (others may run before N sees the exception; the real
+                       _on_created/_on_deleted turn it into an _error reply)
        ('xdel', path)  one external deletion of an existing presence node
   When 1.+2. are empty the system is quiescent: choice 0 is 'stop'.
 
@@ -67,6 +78,52 @@ from treadmill import zkutils                           # noqa: E402
 from treadmill.services import presence_service as ps   # noqa: E402
 
 logging.disable(logging.CRITICAL)
+
+import kazoo.exceptions as kx                           # noqa: E402
+import kazoo.retry                                      # noqa: E402
+
+
+class _NoSleepRetry(kazoo.retry.KazooRetry):
+    """kazoo.retry.KazooRetry as seen by the code under test: same retry
+    policy, but the back-off between attempts does not sleep (wall time and
+    random jitter are not part of any behaviour explored here; every retried
+    call is a scheduling point anyway)."""
+
+    def __init__(self, *args, **kwargs):
+        super(_NoSleepRetry, self).__init__(*args, **kwargs)
+        self.sleep_func = lambda _secs: None
+
+
+kazoo.retry.KazooRetry = _NoSleepRetry
+
+
+class FaultClient(fakezk.Client):
+    """fakezk client that can lose the reply of ONE mutating call: the call
+    is applied, then ConnectionLoss is raised to the caller."""
+    raise_after = None
+
+    def _after(self):
+        if self.raise_after is not None:
+            err, self.raise_after = self.raise_after, None
+            raise err
+
+    def create(self, *args, **kwargs):
+        res = super(FaultClient, self).create(*args, **kwargs)
+        self._after()
+        return res
+
+    def set(self, *args, **kwargs):
+        res = super(FaultClient, self).set(*args, **kwargs)
+        self._after()
+        return res
+
+    def delete(self, *args, **kwargs):
+        res = super(FaultClient, self).delete(*args, **kwargs)
+        self._after()
+        return res
+
+
+FAULTS = ('expired', 'loss', 'loss-applied')
 
 ADMIN_SID = 9          # set-up / external deletions; owns nothing
 INSTANCE = 'foo.bar-0000000001'
@@ -120,7 +177,17 @@ CONFIGS = {
 }
 
 
+_PATHS_CACHE = {}
+
+
 def container_paths(host, cname):
+    key = (host, cname)
+    if key not in _PATHS_CACHE:
+        _PATHS_CACHE[key] = _container_paths(host, cname)
+    return _PATHS_CACHE[key]
+
+
+def _container_paths(host, cname):
     """[(path, payload bytes)] the container must have registered, in the
     order the service registers them.  Written from the property statement
     (running -> hostname, endpoint -> host:port, identity -> {host, app})."""
@@ -176,7 +243,7 @@ class Node:
     __slots__ = ('name', 'host', 'program', 'pc', 'reissue', 'retries',
                  'live', 'status', 'sid', 'client', 'svc', 'glet', 'cur',
                  'pending', 'seen', 'incarnation', 'result', 'error',
-                 'journal', 'start_presence', 'first_op')
+                 'journal', 'start_presence', 'first_op', 'inject')
 
     def __init__(self, name, host, program):
         self.name = name
@@ -197,6 +264,7 @@ class Node:
         self.journal = []       # (op, path, node state the op found) this request
         self.start_presence = None   # svc.presence when the request started
         self.first_op = None
+        self.inject = None      # fault landing on the call in flight
         self.incarnation = 0
         self.result = None
         self.error = None
@@ -231,7 +299,18 @@ class World:
         cfg = CONFIGS[cfgname]
         self.cfgname = cfgname
         self.max_dev = max_dev
-        self.allow_xdel = xdel
+        # `xdel`: True = every environment move, False = all but the external
+        # deletion, or the explicit list of optional kinds
+        # ('xdel', 'expired', 'loss', 'loss-applied'); the process-killing
+        # expiry is always there
+        if xdel is True:
+            opts = ('xdel',) + FAULTS
+        elif xdel is False:
+            opts = FAULTS
+        else:
+            opts = tuple(xdel)
+        self.allow_xdel = 'xdel' in opts
+        self.faults = tuple(k for k in FAULTS if k in opts)
         self.want_labels = want_labels
         self.main = greenlet.getcurrent()
         self.tree = fakezk.Tree()
@@ -255,7 +334,8 @@ class World:
         self.touched = {}       # path -> set of node names that operated on it
         self.xdel_used = False
         self.exempt = {}        # path deleted externally -> node that owned it
-        self.last_ok_create = {}  # (node, path) -> container whose create completed last
+        self.last_ok_create = {}  # (node, path) -> container whose create
+                                  # request registered the path last
         self.started = None
         self.step = 0
         self.tr = Trace()
@@ -267,7 +347,7 @@ class World:
         self.next_sid += 1
         self.tree.sessions[sid] = True
         n.sid = sid
-        n.client = fakezk.Client(self.tree, sid)
+        n.client = FaultClient(self.tree, sid)
         n.incarnation += 1
         n.svc = Svc(n.client, n.host, n.retries.append)
         self.by_sid[sid] = n
@@ -283,6 +363,13 @@ class World:
                                % (op, path))
         n.pending = (op, path, _site())
         self.main.switch()
+        if n.inject is not None:
+            kind, n.inject = n.inject, None
+            if kind == 'expired':
+                raise kx.SessionExpiredError()
+            if kind == 'loss':
+                raise kx.ConnectionLoss()
+            client.raise_after = kx.ConnectionLoss()     # loss-applied
 
     def kill(self):
         """Abandon the execution: unwind the requests in flight."""
@@ -336,6 +423,22 @@ class World:
                     else [tuple(live)]
                 for perm in perms:
                     env.append(('expire', n.name, perm))
+            if self.faults:
+                for n in self.nodes:
+                    if n.glet is None or n.pending is None or \
+                            n.inject is not None:
+                        continue
+                    op = n.pending[0]
+                    if 'expired' in self.faults:
+                        env.append(('fault', n.name, 'expired'))
+                    if op != 'DataWatch':
+                        # (the DataWatch recipe retries connection loss
+                        # itself)
+                        if 'loss' in self.faults:
+                            env.append(('fault', n.name, 'loss'))
+                        if 'loss-applied' in self.faults and \
+                                op in ('create', 'set', 'delete'):
+                            env.append(('fault', n.name, 'loss-applied'))
             if self.allow_xdel and not self.xdel_used:
                 for path, (_d, owner) in sorted(
                         self.tree.dump('/', with_stat=True).items()):
@@ -401,6 +504,7 @@ class World:
                 n.glet = None
                 n.cur = None
                 n.pending = None
+                n.inject = None
                 g.throw(greenlet.GreenletExit)
                 self.count('expiries_mid_request')
             self.tree.expire(n.sid)
@@ -409,6 +513,8 @@ class World:
                 self._unref(p)
             for p in [p for p, o in self.exempt.items() if o == n.name]:
                 del self.exempt[p]
+            for k in [k for k in self.last_ok_create if k[0] == n.name]:
+                del self.last_ok_create[k]      # the new process knows nothing
             n.status.clear()
             del n.retries[:]
             n.retries = []
@@ -416,6 +522,30 @@ class World:
             self._new_session(n)
             n.reissue = list(move[2])
             return None          # `last` unchanged
+        if kind == 'fault':
+            n = self.by_name[move[1]]
+            self.tr.dev += 1
+            self.count('faults_on_call_in_flight_' + move[2])
+            n.inject = move[2]
+            if move[2] == 'expired':
+                # the session is gone; the kazoo client (same object, same
+                # process, same service memory) carries on under a new
+                # session; its DataWatch recipes re-arm on reconnection, so
+                # its watches are carried over
+                old = n.sid
+                new = self.next_sid
+                self.next_sid += 1
+                self.tree.sessions[new] = True
+                n.client.sid = new
+                n.sid = new
+                self.by_sid[new] = n
+                self.tree.expire(old)
+                self._absorb_log(None, None)
+                for p in [p for p, r in self.ref.items() if r[0] == n.name]:
+                    self._unref(p)
+                for p in [p for p, o in self.exempt.items() if o == n.name]:
+                    del self.exempt[p]
+            return None
         if kind == 'xdel':
             path = move[1]
             self.tr.dev += 1
@@ -488,10 +618,27 @@ class World:
             self.tr.shared = True
         node = self.tree.find(path)
         n.journal.append(
-            (op, path) if node is None else
-            (op, path, node.data, self.by_sid[node.owner].name
+            (op, path, n.inject) if node is None else
+            (op, path, n.inject, node.data, self.by_sid[node.owner].name
              if node.owner in self.by_sid else node.owner))
-        if op == 'get':
+        if n.cur[0] == 'create' and n.inject is None:
+            # which container's create request was the last to REGISTER the
+            # path on this node, i.e. to get True from _safe_create for it -
+            # judged from the ZooKeeper calls alone, independent of the
+            # service's own table: the create succeeds, or the node is
+            # already this session's and carries (or is then set to) the
+            # container's data
+            cname = n.cur[1]
+            want = dict(container_paths(n.host, cname)).get(path)
+            if want is not None and (
+                    (op == 'create' and node is None) or
+                    (op == 'get' and node is not None and
+                     node.owner == n.sid and node.data == want) or
+                    (op == 'set' and node is not None)):
+                self.last_ok_create[(n.name, path)] = cname
+        if n.inject in ('expired', 'loss'):
+            pass                        # the call fails, it observes nothing
+        elif op == 'get':
             n.seen[path] = [node.owner if node is not None else None, False]
         elif op == 'create' and node is not None and node.owner and \
                 node.owner != n.sid and self.tree.sessions.get(node.owner):
@@ -601,17 +748,13 @@ class World:
         last = self.last_ok_create.get((actor.name, path))
         if last is not None and CONTAINERS[last]['rid'] != rid:
             # the service's table names the deleted container although the
-            # last create to complete for this node came from another one
+            # last create request to register the path came from another one
             return site + ':table-names-deleted-container-but-' \
                 'another-container-registered-last'
         return site + ':registered-to-deleted-container'
 
     def _registered(self, n, cname):
         gen = CONTAINERS[cname]['gen']
-        # which container's create request was the last to complete for each
-        # path on this node (harness-side, independent of the service's table)
-        for path, _payload in container_paths(n.host, cname):
-            self.last_ok_create[(n.name, path)] = cname
         if any(CONTAINERS[other]['gen'] > gen for other in n.live):
             # a newer container of the instance is live on this node: this
             # one is superseded (see _start), its reply establishes nothing
@@ -776,7 +919,7 @@ class World:
             flight = None
             if n.glet is not None:
                 flight = (n.cur, n.start_presence, tuple(n.journal),
-                          n.pending[:2],
+                          n.pending[:2], n.inject,
                           tuple(sorted((p, s[0] == n.sid, s[1])
                                        for p, s in n.seen.items())))
             nodes.append((n.name, n.pc, tuple(n.reissue), tuple(n.retries),
